@@ -34,13 +34,15 @@ def _missing(v):
 
 
 FALSY = {"shape": ["", "sq"], "size": [0, 12]}  # categories that are falsy in Python: the empty string, the code 0
+OVERLAP = {"shape": ["b", "c"], "size": ["a", "b"]}  # two columns sharing a value that has another rank in each
 
 
 def scenario_for(cfg):
     m = loader.load("mlmodel.categories_to_integers")
     ntr, nte = cfg["train_rows"], cfg["test_rows"]
     single, skip, remove = cfg["single"], cfg["skip_errors"], cfg["remove"]
-    POOL = FALSY if cfg.get("pool") == "falsy" else globals()["POOL"]
+    POOL = FALSY if cfg.get("pool") == "falsy" else (OVERLAP if cfg.get("pool") == "overlap" else globals()["POOL"])
+    UNSEEN = {"shape": "zz", "size": "c"} if cfg.get("pool") == "overlap" else globals()["UNSEEN"]  # 'c' is known to the other column only
 
     def scenario(C):
         fixed = cfg.get("fixed") or {}
@@ -147,6 +149,9 @@ def configs(tier):
         out.append(dict(train_rows=2, test_rows=1 if tier == "quick" else 2, train_missing=False, single=single, skip_errors=True, remove=None, pool="falsy"))
         for skip in (False, True):
             out.append(dict(train_rows=2, test_rows=1, train_missing=False, single=single, skip_errors=skip, remove=None, via_set_params=True))
+    for single in (False, True):
+        out.append(dict(train_rows=2, test_rows=1, train_missing=True, single=single, skip_errors=False, remove=None))  # missing cells in the training table
+        out.append(dict(train_rows=2, test_rows=1, train_missing=False, single=single, skip_errors=single, remove=None, pool="overlap"))
     for single in (False, True):
         for hist in ("refit", "permute_cols"):
             out.append(dict(train_rows=2, test_rows=1, train_missing=False, single=single, skip_errors=True, remove=None, **{hist: True}))
